@@ -101,8 +101,18 @@ func (m *Machine) noteWrite(o *Obj) {
 		o.written = true
 	}
 }
-func (m *Machine) noteMapRead(mo *MapObj)  { m.guardCheck(mo, false) }
-func (m *Machine) noteMapWrite(mo *MapObj) { m.guardCheck(mo, true) }
+func (m *Machine) noteMapRead(mo *MapObj) {
+	m.guardCheck(mo, false)
+	if m.race.on {
+		m.raceMap(mo, false)
+	}
+}
+func (m *Machine) noteMapWrite(mo *MapObj) {
+	m.guardCheck(mo, true)
+	if m.race.on {
+		m.raceMap(mo, true)
+	}
+}
 func (m *Machine) bigWrite(p PtrVal)       {}
 
 // guardCheck: a map registered with verifapi.GuardedBy must only be touched
